@@ -38,6 +38,10 @@ func genC09Base(rt *rapid.T) c09Base {
 	b.Sc.Cfg[1] = vfSideCfg{IL: rapid.IntRange(0, 3).Draw(rt, "ilb") != 0 && il || (!il && false), TSN: genTSN(rt, "tsnb", 8448), RTOMax: 1500}
 	b.Sc.Mode = rapid.SampledFrom([]string{"", "", "", "cc"}).Draw(rt, "mode")
 	b.EndMs = 1500
+	// readers that poll with read deadlines instead of blocking for ever
+	if pl := rapid.SampledFrom([]int{0, 0, 5, 20, 100}).Draw(rt, "pollms"); pl > 0 {
+		b.Sc.PollMs = [2]int{pl, pl}
+	}
 	sz := func() int { return rapid.SampledFrom([]int{1, 100, 1200, 4000, 20000}).Draw(rt, "size") }
 	switch tmpl {
 	case 0:
@@ -313,6 +317,9 @@ func runC09(t *testing.T, x c09Scn, verbose bool) (c vfCase, out c09Out) {
 		s.mu.Unlock()
 		c.class("kind-" + x.Kind)
 		c.class("base-" + x.Base.Name)
+		if x.Base.Sc.PollMs[0] > 0 {
+			c.class("polling-readers")
+		}
 		if !isEst {
 			c.class("injected-during-handshake")
 		}
